@@ -74,6 +74,21 @@ def plan(tier, seed):
         rng = rng_for("C13", seed, "sample")
         chosen, seen_sd, seen_sp = [], set(), set()
         order = rng.permutation(len(cells))
+        # first pass: cover every (solver, datafit) pair with a penalty that solver normally accepts and every
+        # (solver, penalty) pair with a datafit it normally accepts, so that the check guarding the *other* component
+        # is actually reached (a cell that is refused for its penalty says nothing about the datafit checks)
+        for i in order:
+            c = cells[i]
+            info = K.SOLVER_INFO[c[0]]
+            if c[2] in info["penalties"] and (c[0], c[1]) not in seen_sd:
+                chosen.append(c)
+                seen_sd.add((c[0], c[1]))
+        for i in order:
+            c = cells[i]
+            info = K.SOLVER_INFO[c[0]]
+            if c[1] in info["datafits"] and (c[0], c[2]) not in seen_sp and c not in set(chosen):
+                chosen.append(c)
+                seen_sp.add((c[0], c[2]))
         for i in order:
             c = cells[i]
             if (c[0], c[1]) not in seen_sd or (c[0], c[2]) not in seen_sp:
@@ -81,7 +96,7 @@ def plan(tier, seed):
                 seen_sd.add((c[0], c[1]))
                 seen_sp.add((c[0], c[2]))
         rest = [cells[i] for i in order if cells[i] not in set(chosen)]
-        chosen += rest[: max(0, 650 - len(chosen))]
+        chosen += rest[: max(0, 750 - len(chosen))]
         cells = chosen
     by = {}
     for c in cells:
